@@ -67,6 +67,9 @@ class Deep:
                 deep.logging.exception("Failed to process plugin resource {}", provider.name)
 
         self.config.resource = default_resource
+        # a shutdown closed the task handler: without this a start after a shutdown fails half way (on the first
+        # config update), with the trace hooks installed and no way to get them removed
+        self.task_handler.open()
         self.trigger_handler.start()
         self.grpc.start()
         self.poll.start()
